@@ -483,6 +483,7 @@ func (c *TCPConn) Read(p []byte) (int, error) {
 	c.BytesRead += int64(n)
 	last := len(c.in) == 0 && c.finRecv
 	ul(c.mu)
+	simrt.Progress()   // bytes moved: a reader that never has to wait (64 KiB lines, one byte per read) is not spinning
 	c.cond.Broadcast() // room for a blocked writer
 	if last && ch != nil && cfg.EOFWithData > 0 && ch.Bool(cfg.EOFWithData) {
 		c.n.count("read_data_with_eof")
@@ -538,6 +539,7 @@ func (c *TCPConn) Write(p []byte) (int, error) {
 				n = room
 			}
 			pe.in = append(pe.in, p[written:written+n]...)
+			simrt.Progress()
 			written += n
 			c.BytesWritten += int64(n)
 			if written == len(p) {
